@@ -7,7 +7,8 @@ import sys
 import time
 
 VERIF = os.path.dirname(os.path.dirname(os.path.abspath(__file__)))
-EVID = os.path.join(VERIF, 'evidence')
+# runs against a scratch copy of the library (seeded changes) must not overwrite the evidence of the real tree
+EVID = os.environ.get('VERIF_EVIDENCE') or os.path.join(VERIF, 'evidence')
 REPLAYS = os.path.join(EVID, 'replays')
 
 
